@@ -165,7 +165,7 @@ impl Kinematics for Probe {
         self.inner.kinematic_singularity(qs)
     }
     fn forward_with_joint_poses(&self, joints: &Joints) -> [Pose; 6] {
-        seam(Kind::Collision, 0);
+        seam(Kind::Collision, joints_key(joints));
         self.inner.forward_with_joint_poses(joints)
     }
 }
